@@ -304,6 +304,88 @@ class SteadyEnum(Suite):
         return run_steady(case)
 
 
+# ------------------------------------------------------------------ (b2) line-level pre-emption inside the WSGI app itself
+
+APP_PY = os.path.join(boot.REPO, 'falcon', 'app.py')
+SINK_REQS = [('/sink/alpha/x', 's0'), ('/sink/beta/y', 's1'), ('/plain/here', 's2'), ('/nothing/here', 's3'), ('/items/7', 's4')]
+
+
+def _named_sink(req, resp, **kw):
+    resp.media = {'who': 'named_sink', 'params': {k: str(v) for k, v in sorted(kw.items())}, 'hdr': req.get_header('X-Token')}
+
+
+def _plain_sink(req, resp, **kw):
+    resp.media = {'who': 'plain_sink', 'params': {k: str(v) for k, v in sorted(kw.items())}, 'hdr': req.get_header('X-Token')}
+
+
+def build_sink_app():
+    app = falcon.App(middleware=[TokenMw('a')])
+    for t, who in ROUTES:
+        app.add_route(t, Echo(who))
+    app.add_sink(_named_sink, r'/sink/(?P<sid>\w+)/(?P<rest>\w+)')
+    app.add_sink(_plain_sink, '/plain')
+    return app
+
+
+def sink_request(app, i):
+    path, tok = SINK_REQS[i]
+    env = wsgi_driver.build_environ('POST', path, query='q=' + tok, headers=[('X-Token', tok), ('Content-Length', str(len(tok)))],
+                                    body=tok.encode())
+    r = wsgi_driver.call(app, env)
+    if r.error is not None:
+        return ('error', type(r.error).__name__, str(r.error)[:200])
+    return (r.status, sorted(r.headers), r.body)
+
+
+_SINK_SERIAL = {}
+
+
+def run_app_lines(case):
+    reqs = case['reqs']
+    app = build_sink_app()
+    sink_request(app, 4)  # warm up
+    for i in reqs:
+        if i not in _SINK_SERIAL:
+            a2 = build_sink_app()
+            sink_request(a2, 4)
+            _SINK_SERIAL[i] = ('ok', sink_request(a2, i))
+    fns = [lambda i=i: sink_request(app, i) for i in reqs]
+    sched = Scheduler(fns, case['plan'], trace_prefixes=(APP_PY,))
+    results = sched.run()
+    ctx = 'requests=%r plan=%r switches=%r' % ([SINK_REQS[i][0] for i in reqs], case['plan'], sched.switch_log[:8])
+    for k, i in enumerate(reqs):
+        got, exp = results[k], _SINK_SERIAL[i]
+        if got[0] == 'exc':
+            raise Violation('request_failed', 'request %r raised %r; %s' % (SINK_REQS[i][0], got[1], ctx))
+        if got != exp:
+            raise Violation('response_differs', 'request %r got %r, alone it gets %r; %s' % (SINK_REQS[i][0], got[1], exp[1], ctx))
+    mid = any(w != 'end' for (_f, _t, _p, w) in sched.switch_log)
+    return Info(mid, ['threads:%d' % len(reqs)] + (['preempted_inside_app_py'] if mid else []))
+
+
+class AppLines(Suite):
+    """Warmed-up WSGI app with routes, a sink with named groups, a plain sink and unrouted paths; every line event inside
+    falcon/app.py (request set-up, routing, sink / responder dispatch, error handling, response phase) is a yield point:
+    ALL single pre-emptions of the first request (k = 0..99) for several request pairs, and a grid of double pre-emptions."""
+
+    name = 'app_lines'
+    exhaustive = True
+    budget = {'quick': 1, 'thorough': 1}
+    case_timeout = 120
+
+    def cases(self, tier):
+        pairs = [(0, 1), (0, 2), (3, 0)] if tier == 'quick' else [(a, b) for a in range(5) for b in range(5) if a != b]
+        for a, b in pairs:
+            for k in range(0, 100):  # a request executes 60-90 line events inside app.py
+                yield {'reqs': [a, b], 'plan': [[0, k]]}
+        for k1 in range(0, 100, 5 if tier == 'quick' else 2):
+            for k2 in range(1, 100, 5 if tier == 'quick' else 2):
+                yield {'reqs': [0, 1], 'plan': [[0, k1], [1, k2]]}
+
+    def run(self, case):
+        return run_app_lines(case)
+
+
 # ------------------------------------------------------------------ (c) ASGI tasks on a stepped loop
 
 
@@ -547,5 +629,5 @@ class AsgiRandom(Suite):
         return run_asgi_tasks(case)
 
 
-SUITES = [RaceSinglePreemption(), RaceDoublePreemption(), RaceRandom(), SteadyEnum(), AsgiEnum(), AsgiRandom()]
+SUITES = [RaceSinglePreemption(), RaceDoublePreemption(), RaceRandom(), SteadyEnum(), AppLines(), AsgiEnum(), AsgiRandom()]
 KNOWN = {}
